@@ -153,6 +153,15 @@ def build(ck, sr, cfgs, seeds):
                             i = len(scripts)
                             scripts.append(base + " ; inj %s %s" % (side, raw.hex()) + cont + " ; st")
                             inj_desc[i] = [d] + cdesc; meta.append((name, k, side, kn))
+                # the network (or an attacker) shows an EARLIER genuine record again at this point of the handshake: in TLS every repeated
+                # record is illegal (a repeated handshake message, or a sealed record whose sequence number has moved on) and must kill
+                if k >= 1 and "smaxed" not in cfg and "psk=1" not in cfg:
+                    for j in range(k):
+                        dj = trace[j]; toj = "s" if dj == "c2s" else "c"
+                        i = len(scripts)
+                        scripts.append(prefix_script(cfg, seed, trace, j) + " ; save %s 1" % dj + "".join(" ; step %s" % d for d in trace[j:k])
+                                       + " ; replay %s 1" % toj + "".join(" ; step %s" % d for d in rest) + " ; app c 6869 ; step c2s ; app s 6a6b ; step s2c ; st")
+                        inj_desc[i] = [None]; meta.append((name, k, toj, "replay-earlier:%d" % j))
                 # corrupt the next genuine record (first payload byte and last byte), then offer the original again
                 if k < n and "psk=1" not in cfg:   # (a server skipping rejected 0-RTT also skips a corrupted record and accepts its original later: by design)
                     d0 = trace[k]; to = "s" if d0 == "c2s" else "c"
@@ -269,6 +278,24 @@ def run(ck):
                                   {"harness": "h_sess", "script": scripts[si], "observed": out[-900:], "scenario": meta[si]})
             else:
                 ck.count("illegal_message_killed_session")
+        if meta[si][3].startswith("replay-earlier:"):
+            x = meta[si][2]
+            segs = out.split(" | ")
+            ks = [i for i, sg in enumerate(segs) if sg.strip().startswith("replay:")]
+            if ks:
+                rst = parse_steps(segs[ks[-1]])
+                later = " | ".join(segs[ks[-1] + 1:])
+                got = [a for st in parse_steps(later) if st.side == x for a in st.appdata]
+                fin = sesslib.re.search(r"st:c=(\S+) s=(\S+)$", out.strip())
+                snap = sesslib.parse_snap(fin.group(1 if x == "c" else 2)) if fin else None
+                alive = snap is not None and not (snap["E"] or snap["C"])
+                if rst and rst[0].post and (alive or got):
+                    ck.spec_violation("replayed-record-survived:%s:hs%d" % ("v13" if rst[0].pre["v"] else "v12", rst[0].pre["hs"]),
+                                      "an earlier genuine record shown again to the %s in hsState %d did not end the session (flagged: %s, delivered afterwards: %s)" % (
+                                          "server" if x == "s" else "client", rst[0].pre["hs"], not alive, got),
+                                      {"harness": "h_sess", "script": scripts[si], "observed": out[-900:], "scenario": meta[si]})
+                else:
+                    ck.count("replayed_earlier_record_killed_session")
         if meta[si][3].startswith("earlydata:") and "psk=1" in scripts[si]:
             sizes = [int(x) for x in meta[si][3].split(":")[1].split("+")]
             limit = int(sesslib.re.search(r"smaxed=(\d+)", scripts[si]).group(1))
